@@ -155,6 +155,7 @@ pub fn drive(args: &[String]) -> i32 {
         for s in 0..nseeds {
             for pos in 0..positions {
                 if entry_timeouts >= 3 { continue; }       // a hanging entry has been established: do not spend 2 s per further call
+                if entry_max_us > 20_000 && (s > 0 || pos > 2) { continue; }     // single calls take tens of milliseconds: three positions of one seed are enough
                 let jobs: Vec<Job> = lat.iter().map(|&w| Job { entry: ei, prefix: vec![], seed: seed.wrapping_add(s * 7919 + ei as u64), at: pos, word: w, mode: 0 }).collect();
                 let dones = run_batch(jobs, limit_ms, &mut jtx, &mut drx);
                 for (&w, d) in lat.iter().zip(dones.into_iter()) {
